@@ -2,6 +2,7 @@ package main
 
 import (
 	"fmt"
+	. "github.com/frankkopp/FrankyGo/internal/types"
 	"strconv"
 	"time"
 
@@ -209,7 +210,69 @@ func c14Monitor(args []string) int {
 		}
 		s.StopSearch()
 	}
+	// the next go arrives in answer to bestmove while the finished search is still inside the
+	// (slow) result callback: the new search must not be ended by the clean-up of the old one
+	for k := 0; k < 12; k++ {
+		s := search.NewSearch()
+		d := &slowDriver{signal: make(chan struct{}, 4), delay: time.Duration(2+rng.Intn(25)) * time.Millisecond}
+		s.SetUciHandler(d)
+		p := position.NewPosition()
+		sl := search.NewSearchLimits()
+		sl.Depth = 1 + rng.Intn(2)
+		setCurrent(map[string]interface{}{"scenario": "go infinite issued from inside the bestmove callback of a depth search", "k": k})
+		s.StartSearch(*p, *sl)
+		select {
+		case <-d.signal:
+		case <-time.After(10 * time.Second):
+			rep.Violate("lifecycle-call-hangs", map[string]interface{}{"scenario": "depth search never delivered a result"}, "")
+			continue
+		}
+		// the result of search 1 is being written; answer it at once
+		sl2 := search.NewSearchLimits()
+		kind := "infinite"
+		if k%3 == 2 {
+			sl2.TimeControl, sl2.MoveTime = true, 400*time.Millisecond
+			kind = "movetime 400"
+		} else {
+			sl2.Infinite = true
+		}
+		accepted := false
+		for try := 0; try < 200 && !accepted; try++ { // StartSearch is rejected until the running state is released
+			before := s.IsSearching()
+			if !before {
+				s.StartSearch(*p, *sl2)
+				accepted = true
+			} else {
+				time.Sleep(100 * time.Microsecond)
+			}
+		}
+		t0 := time.Now()
+		time.Sleep(120 * time.Millisecond)
+		rep.Cases++
+		if n := d.nResults(); accepted && n != 1 {
+			rep.Violate("search-ended-by-leftover-of-earlier-search", map[string]interface{}{"scenario": "go " + kind + " issued in answer to bestmove while the result callback of the finished search is still running", "callback_delay": d.delay.String()},
+				fmt.Sprintf("%d results %s after the second start (expected only the first search's)", n, time.Since(t0)))
+		}
+		s.StopSearch()
+		d.waitResults(2)
+	}
 	return rep.Emit()
+}
+
+// slowDriver: a result callback that signals the controller and then takes its time (a slow output pipe)
+type slowDriver struct {
+	captureDriver
+	signal chan struct{}
+	delay  time.Duration
+}
+
+func (d *slowDriver) SendResult(bestMove Move, ponderMove Move) {
+	d.captureDriver.SendResult(bestMove, ponderMove)
+	select {
+	case d.signal <- struct{}{}:
+	default:
+	}
+	time.Sleep(d.delay)
 }
 
 func init() { register("c14-monitor", c14Monitor) }
